@@ -142,15 +142,27 @@ func (self Value) GetByPath(pathes ...Path) Value {
 			desc = f.Type()
 			isList = tt == thrift.LIST
 		case PathIndex:
+			if t := desc.Type(); t != thrift.LIST && t != thrift.SET {
+				return errValue(meta.ErrDismatchType, fmt.Sprintf("%dth path is an index, but the descriptor is %s", i, t), nil)
+			}
 			tt, start, err = searchIndex(&p, path.int(), isList)
 			desc = desc.Elem()
 		case PathStrKey:
+			if desc.Type() != thrift.MAP {
+				return errValue(meta.ErrDismatchType, fmt.Sprintf("%dth path is a map key, but the descriptor is %s", i, desc.Type()), nil)
+			}
 			tt, start, err = searchStrKey(&p, path.str())
 			desc = desc.Elem()
 		case PathIntKey:
+			if desc.Type() != thrift.MAP {
+				return errValue(meta.ErrDismatchType, fmt.Sprintf("%dth path is a map key, but the descriptor is %s", i, desc.Type()), nil)
+			}
 			tt, start, err = searchIntKey(&p, path.int())
 			desc = desc.Elem()
 		case PathBinKey:
+			if desc.Type() != thrift.MAP {
+				return errValue(meta.ErrDismatchType, fmt.Sprintf("%dth path is a map key, but the descriptor is %s", i, desc.Type()), nil)
+			}
 			tt, start, err = searchBinKey(&p, path.bin())
 			desc = desc.Elem()
 		default:
